@@ -229,8 +229,10 @@ def evaluate(case, out):
                 if rounds:
                     # one audit = one test object looked at after every round: each ordering is a separate audit
                     test = nonneg.make_test(cfg)
+                # the audit's data array grows from round to round: each look is at the first k entries of the same array
+                base = arr_of(arr) if rounds else None
                 for k in list(rounds) + [N]:
-                    p, h = test.test(arr_of(arr[:k]))
+                    p, h = test.test(base[:k] if base is not None else arr_of(arr[:k]))
                     h = np.asarray(h, dtype=float)
                     pm = float(p)
                     if h.size:
@@ -264,6 +266,10 @@ def evaluate(case, out):
                 pr *= probs[i]
             try:
                 p, h = test.test(x)
+                if L % 2 == 0:
+                    # the same data array looked at a second time (a re-run, a second assertion sharing the array):
+                    # whatever either look reports may be acted upon
+                    p_b, h_b = test.test(x)
             except Exception as e:  # noqa
                 out.lib_exception("test", e)
                 return
@@ -271,6 +277,11 @@ def evaluate(case, out):
             m = float(p)
             hm = np.nanmin(h) if not np.all(np.isnan(h)) else 1.0
             m = hm if (math.isnan(m) or hm < m) else m
+            if L % 2 == 0:
+                h_b = np.asarray(h_b, dtype=float)
+                for v in [float(p_b)] + ([float(np.nanmin(h_b))] if not np.all(np.isnan(h_b)) else []):
+                    if not math.isnan(v) and v < m:
+                        m = v
             ms.append((float(m), pr))
         out.enumerated = k ** L
         n_paths = k ** L
